@@ -185,7 +185,7 @@ var nontrivialFeatures = map[string]bool{"shift_int8": true, "shift_uint8": true
 func TestPropGc(t *testing.T) {
 	off := offSwitches()
 	batch := 40
-	ev.Check(t, ev.N{Quick: 40, Thorough: 1000}, func(t *rapid.T) {
+	ev.Check(t, ev.N{Quick: 28, Thorough: 700}, func(t *rapid.T) {
 		n := rapid.IntRange(batch/2, batch).Draw(t, "nprograms")
 		progs := make([]goprog.Prog, n)
 		srcs := make([]string, n)
